@@ -65,8 +65,8 @@ def end_of(rc):
     return {"kind": "exit", "code": rc}
 
 
-def cli_case(wd, sd, i, accepted):
-    c = fuzz_case(sd, i)
+def cli_case(wd, sd, i, accepted, case=None):
+    c = case or fuzz_case(sd, i)
     base = "c%d" % i
     rp = wd.write(base + "/r.guard", c["rules"])
     dp = wd.write(base + ("/d.yaml" if c["kind"] == "adv-yaml" else "/d.json"), c["data"])
@@ -217,6 +217,10 @@ def run(tier):
         for out in pool.map(lambda i: cli_case(wd, sd, i, accepted.get(i, True)), picks):
             clines.extend(out)
     clines.extend(byte_cases(wd))
+    # cases an earlier run found (kept under /verif/fixtures/c08): always replayed
+    fx = os.path.join(VERIF, "fixtures", "c08")
+    for k, name in enumerate(sorted(os.listdir(fx))):
+        clines.extend(cli_case(wd, sd, 800000 + k, True, case=json.load(open(os.path.join(fx, name)))))
     wd.close()
     res.cov["cli_runs"] = len(clines)
     for l in clines[:2]:
